@@ -139,7 +139,9 @@ def main(prop, tier, seed, replay_file):
         tdefs, tlines = trace_cfg(cfg)
         results, _ = tlc.validate_traces(wd, "Consumer_Trace", [tr], tdefs, tlines, workers=1)
         print(json.dumps({"trace": tr, "result": results[0]}, indent=1))
-        raise SystemExit(1 if [c for c, _ in results[0]["viol"] if c.startswith(prop + ".")] else 0)
+        # (C08 and C12 judge these executions through aliases of the consumer clauses)
+        raise SystemExit(1 if [c for c, _ in results[0]["viol"]
+                               if c.startswith(prop + ".") or (prop in ("C08", "C12") and not c.startswith("ENV."))] else 0)
 
     def body(chk):
         chk.assumptions += [
